@@ -127,6 +127,7 @@ func panicSite() string {
 // data may be supplied (shared data in C09); otherwise it is built from the spec.
 func (e *Engine) Exec(idx int, op OpSpec, shared any) (out Outcome) {
 	e.FS.SetOp(idx)
+	simrt.OpStart()
 	w := NewSimWriter(op.Writer)
 	ctx := NewSimCtx(op.Ctx)
 	var data, pristine any
